@@ -191,8 +191,21 @@ class CacheRoles:
 
     # ownership tests: branch nodes comparing a read of TABLE with this
     # invocation's own event / marker
+    def event_pos(self) -> int:
+        """index of the Event in the marker tuple stored at MARK"""
+        g = self.cfg
+        for m in self.MARK:
+            v = m.meta.get('value')
+            for lf in (leaves(g, m, v) if v is not None else []):
+                if isinstance(lf, ast.Tuple):
+                    for i, el in enumerate(lf.elts):
+                        if any(self._is_event_call(y) for y in leaves(g, m, el)):
+                            return i
+        return 1
+
     def ownership_branches(self) -> List[Tuple[Node, str]]:
         out = []
+        self.bad_ownership = []
         g = self.cfg
         for n in g.nodes:
             if n.kind != 'branch':
@@ -205,6 +218,12 @@ class CacheRoles:
             has_event = [any(isinstance(x, ast.Name) and x.id == self.event_var for x in ast.walk(s)) for s in sides]
             if (reads_table[0] and has_event[1] and not reads_table[1]) or \
                (reads_table[1] and has_event[0] and not reads_table[0]):
+                tside = sides[0] if reads_table[0] else sides[1]
+                # the entry's *event* element is what identifies the owner: (loop, event)[1]
+                if isinstance(tside, ast.Subscript) and isinstance(tside.slice, ast.Constant) and isinstance(tside.slice.value, int) \
+                        and tside.slice.value != self.event_pos():
+                    self.bad_ownership.append((n, f'compares element {tside.slice.value} of the table entry with the event (the event is element {self.event_pos()})'))
+                    continue
                 op = t.ops[0]
                 if isinstance(op, (ast.Is, ast.Eq)):
                     out.append((n, 'true'))
@@ -443,6 +462,28 @@ def rule_owner_only_unmark(ctx: Ctx, r: CacheRoles, rule: str) -> None:
                   _loc(g, r.MARK[0]), examined=len(r.UNMARK))
         return
     own = r.ownership_branches()
+    for n_, why_ in getattr(r, 'bad_ownership', []):
+        ctx.violation(rule, f'ownership test {norm(n_.meta["test"])}', _loc(g, n_),
+                      f'{why_}: the test never matches, the marker is never removed and every later caller waits on a set event for ever',
+                      construct=construct_key(r.wrapper.qualname, 'ownership test on the wrong element'))
+    # the read feeding the ownership test must not be able to fail: it runs in the clean-up of every computation
+    for b_, _pol in own:
+        t_ = resolve(g, b_, unalias(g, b_, b_.meta['test']), keep=[r.event_var] if r.event_var else ())
+        for x in ast.walk(t_):
+            if isinstance(x, ast.Subscript) and isinstance(x.value, ast.Call) and isinstance(x.value.func, ast.Attribute) \
+                    and x.value.func.attr == 'get' and isinstance(x.value.func.value, ast.Name) and x.value.func.value.id == r.table:
+                c_ = x.value
+                dflt = c_.args[1] if len(c_.args) > 1 else None
+                total = isinstance(dflt, ast.Tuple) and isinstance(x.slice, ast.Constant) and isinstance(x.slice.value, int) \
+                    and -len(dflt.elts) <= x.slice.value < len(dflt.elts)
+                # guarded by a presence test on the same read?
+                guarded = any(pb is not b_ and find_path(g, [g.entry], [b_], edge_ok=lambda e, pb=pb, lab=lab: not (e.src is pb and e.label != lab)) is None
+                              for pb, lab in presence_branches(r)) if not total else True
+                ctx.check(rule, f'ownership read {norm(x)} cannot fail when the marker is gone', _loc(g, b_), total or guarded,
+                          'a missing entry yields a default that is subscriptable (or is tested for first)',
+                          'when another loop took the key over and already finished, the entry is gone: subscripting the None of '
+                          '.get() raises TypeError out of the clean-up - a bookkeeping error replaces the caller\'s own outcome',
+                          construct=construct_key(r.wrapper.qualname, 'ownership read may fail'))
     for u in r.UNMARK:
         ok = ownership_guarded(r, u)
         w = find_path(g, [g.entry], [u])
@@ -1006,8 +1047,15 @@ def c06(ctx: Ctx) -> None:
         handlers = [e.dst for e in g.succ[sa_.id] if e.label == 'exc' and e.dst.kind == 'except'
                     and e.classes and 'CancelledError' in e.classes]
         if not handlers:
-            ctx.holds('C06-R4', f'{norm(sa_.ast)}: CancelledError is not caught (propagates as the caller\'s own)',
-                      _loc(g, sa_))
+            # await shield(task) raises CancelledError both when the caller is cancelled and when the task itself
+            # finished cancelled (the loop hosting the proxied wait shut down): uncaught, the two are indistinguishable
+            esc = [e for e in g.succ[sa_.id] if e.label == 'exc' and e.classes and 'CancelledError' in e.classes]
+            wp = find_path(g, [], [g.raise_exit], start_edges=esc) if esc else None
+            ctx.check('C06-R4', f'{norm(sa_.ast)}: CancelledError is not caught', _loc(g, sa_), wp is None,
+                      detail_ok='no CancelledError can leave the wait',
+                      detail_bad=('a CancelledError of the waiter task itself (computing loop shut down while hosting the proxied wait) '
+                                  'reaches a caller nobody cancelled: it must be caught and told apart by the waiter\'s state'),
+                      witness=render(g, wp), construct=construct_key(r.wrapper.qualname, 'foreign CancelledError uncaught'))
             continue
         for h in handlers:
             # paths handler -> raise_exit that do not pass the false edge of <task>.done()
